@@ -354,6 +354,17 @@ M("c14-release-internal", "C14", "release also hands out internal buffers",
 M("c14-at-le", "C14", "at accepts index == size",
   (AR, "    if (i >= a->len) {\n        abort();", "    if (i > a->len) {\n        abort();"))
 
+N("neg-lock-cas-loop", ["C06", "C05"], "weak lock implemented with a compare-exchange loop instead of the spin flag",
+  (MM, "        while (atomic_flag_test_and_set(&data->ref.lock)) {\n            sched_yield(); // GCOV_EXCL_LINE\n        }\n", "        size_t seen = atomic_load(&data->ref.hard);\n        while (seen > 0 && !atomic_compare_exchange_weak(&data->ref.hard, &seen, seen + 1)) {\n        }\n"),
+  (MM, "        if (atomic_fetch_add(&data->ref.hard, 1) > 0) {", "        if (seen > 0) {"),
+  (MM, "            /* the memory wasn't live, put the counter back */\n            atomic_fetch_sub(&data->ref.hard, 1);\n", ""),
+  (MM, "        atomic_flag_clear(&data->ref.lock);\n    }\n}", "    }\n}"))
+N("neg-share-soft-first", ["C06", "C05"], "share increments the reference count before the owner count",
+  (MM, "        atomic_fetch_add(&data->ref.hard, 1);\n        atomic_fetch_add(&data->ref.soft, 1);\n    }\n}\n\nvoid cstl_shared_ptr_reset", "        atomic_fetch_add(&data->ref.soft, 1);\n        atomic_fetch_add(&data->ref.hard, 1);\n    }\n}\n\nvoid cstl_shared_ptr_reset"))
+N("neg-hash-insert-tail", ["C03", "C04", "C19"], "hash insert appends at the chain tail instead of the head",
+  (HS, "    HASH_LIST_INSERT(bk->n, hn);\n\n    h->count++;", "    {\n        struct cstl_hash_node ** pp = &bk->n;\n        while (*pp != NULL) { pp = &(*pp)->next; }\n        hn->next = NULL;\n        *pp = hn;\n    }\n\n    h->count++;"))
+N("neg-hash-eager-resize", ["C03", "C04", "C19"], "resize completes its rehash eagerly when the table is small (not a keyed operation)",
+  (HS, "            h->bucket.rh.count = count;\n            h->bucket.rh.clean = 0;\n", "            h->bucket.rh.count = count;\n            h->bucket.rh.clean = 0;\n            if (h->bucket.hash != NULL && h->bucket.count <= 8) { __cstl_hash_rehash(h, SIZE_MAX); }\n"))
 N("neg-heapify-extra", ["C11"], "heapify loop starts at count/2 (one extra, childless, index)",
   (AR, "        for (i = count / 2 - 1; i >= 0; i--) {", "        for (i = count / 2; i >= 0; i--) {"))
 # ------------------------------------------------------- negative controls
@@ -386,3 +397,27 @@ N("neg-heap-tie", ["C07"], "heap sift-down breaks ties toward the right child",
 N("neg-tree-clear-mid", ["C15", "C01"], "tree clear calls back on the MID visit instead of POST",
   (BT, "    if (order == CSTL_BINTREE_VISIT_ORDER_POST\n        || order == CSTL_BINTREE_VISIT_ORDER_LEAF) {",
    "    if (order == CSTL_BINTREE_VISIT_ORDER_MID\n        || order == CSTL_BINTREE_VISIT_ORDER_LEAF) {"))
+
+
+# ---- negative controls that replace a whole function by a different correct implementation
+def _func(path, start, end):
+    src = open("/repo/" + path).read()
+    a = src.index(start); b = src.index(end, a)
+    return src[a:b]
+
+try:
+    N("neg-dlist-reverse-rewrite", ["C12", "C15"], "dlist reverse rewritten as a pointer-swap walk over every node",
+      (DL, _func(DL, "void cstl_dlist_reverse(", "void cstl_dlist_concat("),
+       "void cstl_dlist_reverse(struct cstl_dlist * const l)\n{\n    struct cstl_dlist_node * c = &l->h;\n    do {\n        struct cstl_dlist_node * const t = c->n;\n        c->n = c->p;\n        c->p = t;\n        c = t;\n    } while (c != &l->h);\n}\n\n"))
+    N("neg-slist-reverse-rewrite", ["C13", "C15"], "slist reverse rewritten with the classic three-pointer loop",
+      (SL, _func(SL, "void cstl_slist_reverse(", "void cstl_slist_concat("),
+       "void cstl_slist_reverse(struct cstl_slist * const sl)\n{\n    struct cstl_slist_node * prev = NULL, * c = sl->h.n;\n    if (c != NULL) {\n        sl->t = c;\n    }\n    while (c != NULL) {\n        struct cstl_slist_node * const n = c->n;\n        c->n = prev;\n        prev = c;\n        c = n;\n    }\n    sl->h.n = prev;\n}\n\n"))
+    N("neg-bintree-erase-predecessor", ["C01", "C02", "C08"], "bintree erase of a two-child node splices out the in-order predecessor instead of the successor",
+      (BT, "        y = __cstl_bintree_next(bn);", "        y = __cstl_bintree_prev(bn);"))
+    N("neg-string-resize-memset", ["C10"], "string resize NUL-fills with a loop from the old size computed after the internal resize",
+      ("src/_string.c", "    size_t sz = STRF(size, s);\n    STRF(__resize, s, n);\n    while (sz < n) {\n        *STRF(__at, s, sz++) = STRV(nul);\n    }",
+       "    const size_t old = STRF(size, s);\n    size_t i;\n    STRF(__resize, s, n);\n    for (i = old; i < n; i++) {\n        *STRF(__at, s, i) = STRV(nul);\n    }"))
+    N("neg-weak-reset-order", ["C05", "C06"], "weak_ptr_reset clears the pointer after the decrement instead of before",
+      (MM, "        cstl_guarded_ptr_set(&wp->data, NULL);\n\n        if (atomic_fetch_sub(&data->ref.soft, 1) == 1) {\n            free(data);\n        }", "        if (atomic_fetch_sub(&data->ref.soft, 1) == 1) {\n            free(data);\n        }\n        cstl_guarded_ptr_set(&wp->data, NULL);"))
+except (OSError, ValueError):
+    pass
